@@ -59,7 +59,7 @@ def run(facts, res):
                 if t.callee is not None and t.callee.name == "rebuild_array_order":
                     a = arg_term(cd, t, 1, 16)
                     tr = arg_term(cd, t, 2, 10)
-                    ok = contains_call(a, "get_winner") and any(x[0] == "param" and x[2] == "rt" for x in walk(a)) and any(x[0] == "param" and x[2] == "rt" for x in walk(tr))
+                    ok = contains_call(a, "get_winner") and any(x[0] == "param" and x[1] == 3 for x in walk(a)) and any(x[0] == "param" and x[1] == 3 for x in walk(tr))
             res.instance("E1", "create_delta_array_descriptor diffs against rebuild_array_order(rt.get_winner(), rt): %s" % ok, cd.loc())
             if not ok:
                 res.violation("E1", "create_delta_array_descriptor|base", "the diff base is not the order at the winner of the tree passed in", cd.loc())
@@ -155,7 +155,7 @@ def run(facts, res):
         for bi, t in puts:
             k = arg_term(rb, t, 1, 12)
             v = arg_term(rb, t, 2, 16)
-            key_ok = any(x[0] == "param" and x[2] == "base_revision" for x in walk(k))
+            key_ok = any(x[0] == "param" and x[1] == 2 for x in walk(k))
             full = contains_call(v, "new_from_order")
             vv = {x[1] for x in walk(v) if x[0] == "var"}
             ret_same = False
